@@ -26,11 +26,14 @@ func init() {
 
 // reference model
 type refBin struct {
-	name   string // partition name
-	match  string // key it matches
-	k      int    // fraction k/32
-	busy   int
-	active bool
+	name     string // partition name
+	match    string // key it matches
+	also     string // predicate only: a second key it matches as well (overlapping predicates)
+	k        int    // fraction k/32
+	busy     int
+	active   bool
+	replaced bool   // lookup: a fresh object has been registered under this key since
+	obj      string // object name (lookup)
 }
 
 type refGate struct {
@@ -49,9 +52,13 @@ func share(L, k int) int {
 	return s
 }
 
+func (b *refBin) hit(key string) bool {
+	return b.match == key || (b.also != "" && b.also == key)
+}
+
 func (g *refGate) find(key string) *refBin {
 	for _, b := range g.bins {
-		if b.active && b.match == key {
+		if b.active && b.hit(key) {
 			return b
 		}
 	}
@@ -89,6 +96,21 @@ type partSUT struct {
 	lookup *strategy.LookupPartitionStrategy
 	pred   *strategy.PredicatePartitionStrategy
 	preds  map[string]*strategy.PredicatePartition
+	lparts map[string]*strategy.LookupPartition // lookup: the object last registered under each key
+}
+
+// readd registers a partition again under a key that was removed earlier: the very same object (its outstanding
+// tokens are still bound to it) or, for the lookup strategy, a fresh object under the old key.
+func (p *partSUT) readd(s partSpec, sameObject bool) bool {
+	if p.kind == "lookup" {
+		obj := p.lparts[s.name]
+		if !sameObject || obj == nil {
+			obj = strategy.NewLookupPartitionWithMetricRegistry(s.objName(), float64(s.k)/32, 1, core.EmptyMetricRegistryInstance)
+			p.lparts[s.name] = obj
+		}
+		return p.lookup.AddPartition(s.name, obj)
+	}
+	return p.pred.AddPartition(p.preds[s.name])
 }
 
 func (p *partSUT) strat() core.Strategy {
@@ -112,6 +134,17 @@ type partSpec struct {
 	name, match string
 	k           int
 	obj         string // the partition object's own Name(); the lookup strategy is keyed by the caller's map key, not by this
+	also        string // predicate: the predicate matches this key too (a superset of an earlier partition's predicate)
+}
+
+func (s partSpec) predicate() func(ctx context.Context) bool {
+	if s.also == "" {
+		return matchers.StringPredicateMatcher(s.match, false)
+	}
+	return func(ctx context.Context) bool {
+		v, _ := ctx.Value(matchers.StringPredicateContextKey).(string)
+		return v == s.match || v == s.also
+	}
 }
 
 func (s partSpec) objName() string {
@@ -122,12 +155,13 @@ func (s partSpec) objName() string {
 }
 
 func buildPartSUT(kind string, specs []partSpec, L int) (*partSUT, error) {
-	p := &partSUT{kind: kind, preds: map[string]*strategy.PredicatePartition{}}
+	p := &partSUT{kind: kind, preds: map[string]*strategy.PredicatePartition{}, lparts: map[string]*strategy.LookupPartition{}}
 	reg := core.EmptyMetricRegistryInstance
 	if kind == "lookup" {
 		parts := map[string]*strategy.LookupPartition{}
 		for _, s := range specs {
 			parts[s.name] = strategy.NewLookupPartitionWithMetricRegistry(s.objName(), float64(s.k)/32, 1, reg)
+			p.lparts[s.name] = parts[s.name]
 		}
 		var err error
 		p.lookup, err = strategy.NewLookupPartitionStrategyWithMetricRegistry(parts, nil, int32(L), reg)
@@ -135,7 +169,7 @@ func buildPartSUT(kind string, specs []partSpec, L int) (*partSUT, error) {
 	}
 	var parts []*strategy.PredicatePartition
 	for _, s := range specs {
-		pp := strategy.NewPredicatePartitionWithMetricRegistry(s.name, float64(s.k)/32, matchers.StringPredicateMatcher(s.match, false), reg)
+		pp := strategy.NewPredicatePartitionWithMetricRegistry(s.name, float64(s.k)/32, s.predicate(), reg)
 		p.preds[s.name] = pp
 		parts = append(parts, pp)
 	}
@@ -146,9 +180,10 @@ func buildPartSUT(kind string, specs []partSpec, L int) (*partSUT, error) {
 
 func (p *partSUT) add(s partSpec) bool {
 	if p.kind == "lookup" {
-		return p.lookup.AddPartition(s.name, strategy.NewLookupPartitionWithMetricRegistry(s.objName(), float64(s.k)/32, 1, core.EmptyMetricRegistryInstance))
+		p.lparts[s.name] = strategy.NewLookupPartitionWithMetricRegistry(s.objName(), float64(s.k)/32, 1, core.EmptyMetricRegistryInstance)
+		return p.lookup.AddPartition(s.name, p.lparts[s.name])
 	}
-	pp := strategy.NewPredicatePartitionWithMetricRegistry(s.name, float64(s.k)/32, matchers.StringPredicateMatcher(s.match, false), core.EmptyMetricRegistryInstance)
+	pp := strategy.NewPredicatePartitionWithMetricRegistry(s.name, float64(s.k)/32, s.predicate(), core.EmptyMetricRegistryInstance)
 	p.preds[s.name] = pp
 	return p.pred.AddPartition(pp)
 }
@@ -171,6 +206,8 @@ func drawPartSpecs(t *Tape, kind string) (init []partSpec, later []partSpec) {
 		}
 		if kind == "predicate" && i > 0 && t.Chance(25, "dup-predicate") {
 			s.match = names[i-1] // a second predicate matching the same requests: the first registered must be charged
+		} else if kind == "predicate" && i > 0 && t.Chance(30, "superset-predicate") {
+			s.also = names[i-1] // matches its own key and the previous partition's: requests for that key belong to the earlier one
 		}
 		return s
 	}
@@ -200,7 +237,7 @@ func runC03(r *Run) {
 	}
 	g := &refGate{kind: kind, L: L}
 	for _, s := range initSpecs {
-		g.bins = append(g.bins, &refBin{name: s.name, match: s.match, k: s.k, active: true})
+		g.bins = append(g.bins, &refBin{name: s.name, match: s.match, also: s.also, k: s.k, obj: s.obj, active: true})
 	}
 	if kind == "lookup" {
 		g.unknown = &refBin{name: "<unknown>", k: 0, active: true}
@@ -331,6 +368,46 @@ func runC03(r *Run) {
 				return
 			}
 		case 3:
+			var removed []*refBin
+			for _, b := range g.bins {
+				if !b.active && !b.replaced {
+					removed = append(removed, b)
+				}
+			}
+			if len(removed) > 0 && t.Chance(50, "re-add-removed") {
+				// a removed partition comes back: the same object (tokens handed out before the removal are still bound
+				// to it and keep counting in its bin), or - lookup - a fresh object under the old key (starts at zero;
+				// the old tokens, released later, must not touch it)
+				b := removed[t.Intn(len(removed), "re-add-which")]
+				same := kind != "lookup" || t.Chance(50, "re-add-same-object")
+				sp := partSpec{name: b.name, match: b.match, also: b.also, k: b.k, obj: b.obj}
+				if !sut.readd(sp, same) {
+					r.Fail("add-partition-failed", kind, "AddPartition(%s) (re-adding a removed partition, same object=%v) returned false", b.name, same)
+					return
+				}
+				nb := b
+				if same {
+					// back at the end of the registration order
+					for j, x := range g.bins {
+						if x == b {
+							g.bins = append(g.bins[:j], g.bins[j+1:]...)
+							break
+						}
+					}
+				} else {
+					b.replaced = true
+					nb = &refBin{name: b.name, match: b.match, also: b.also, k: b.k, obj: b.obj}
+				}
+				nb.active = true
+				g.bins = append(g.bins, nb)
+				dynamic = true
+				r.Fault("F-part:re-add")
+				r.Probe("partition_re_added")
+				if !compare(i, fmt.Sprintf("re-adding partition %s (same object=%v)", b.name, same)) {
+					return
+				}
+				continue
+			}
 			if len(laterSpecs) == 0 {
 				continue
 			}
@@ -340,7 +417,7 @@ func runC03(r *Run) {
 				r.Fail("add-partition-failed", kind, "AddPartition(%s) returned false", s.name)
 				return
 			}
-			g.bins = append(g.bins, &refBin{name: s.name, match: s.match, k: s.k, active: true})
+			g.bins = append(g.bins, &refBin{name: s.name, match: s.match, also: s.also, k: s.k, obj: s.obj, active: true})
 			dynamic = true
 			r.Fault("F-part:add")
 			if !compare(i, "AddPartition "+s.name) {
@@ -363,7 +440,7 @@ func runC03(r *Run) {
 				rem, ok := sut.pred.RemovePartitionsMatching(sut.ctx(b.match))
 				cnt := 0
 				for _, x := range g.bins {
-					if x.active && x.match == b.match {
+					if x.active && x.hit(b.match) {
 						x.active = false
 						cnt++
 					}
@@ -461,7 +538,7 @@ func runC03Concurrent(r *Run, sut *partSUT, g *refGate, specs []partSpec) {
 			return -2
 		}
 		for i, sp := range specs {
-			if sp.match == key {
+			if sp.match == key || (sp.also != "" && sp.also == key) {
 				return i
 			}
 		}
